@@ -307,6 +307,7 @@ fn near_values(p: &BigUint, nbytes: usize, quick: bool) -> Vec<BigUint> {
             }
         }
     }
+    v.extend(cmp_family(p, nbytes));
     v.retain(|x| *x < lim);
     dedup(v)
 }
